@@ -1,5 +1,5 @@
 (* C14 — Client-maintained referrers indexes lose no update under concurrency. *)
-From Oras Require Import Base.Prelude Model.Referrers Proofs.Referrers Model.Merge
+From Oras Require Import Base.Prelude Generated.GC14 Model.Referrers Proofs.Referrers Model.Merge
   Proofs.Merge Proofs.MergeLin Proofs.MergeThm Model.Delivery Proofs.Delivery Model.Live Proofs.Live.
 
 (* applyReferrerChanges (position map, tombstones, hint) = set semantics on the
@@ -204,6 +204,19 @@ Theorem C14_capability_error : forall s b,
 Proof. exact set_cap_error. Qed.
 Print Assumptions C14_capability_error.
 Print Assumptions C14_capability_monotone.
+
+(* the field Repository.referrersState has no writer other than that compare-and-swap
+   (regenerated from the Go sources on every run), so every detection path - ping, Referrers()
+   fallback, OCI-Subject header, push without Referrers API - obeys the theorem above *)
+Theorem C14_capability_all_paths :
+  GC14.referrersState_other = 0%Z /\
+  forall (requests : list bool),
+    match set_caps CapUnknown requests with
+    | [] => requests = []
+    | (s0, e0) :: rest => e0 = false /\ s0 <> CapUnknown /\ Forall (fun x => fst x = s0) rest
+    end.
+Proof. exact capability_all_paths. Qed.
+Print Assumptions C14_capability_all_paths.
 
 (* several referrers tags (subjects): every component of a run of the product
    system is a run of the one-tag system, so all theorems above hold per tag *)
